@@ -38,7 +38,7 @@ ASSUMPTIONS = [
     "verovio is not installed: the lxml branch of the MEI reader is the one that runs",
 ]
 COMPONENTS = {"real": ["partitura.io.importkern", "partitura.io.exportkern", "partitura.io.importmei", "partitura.io.exportmei", "partitura.io.load_score", "numpy loadtxt/genfromtxt/savetxt", "lxml"], "stub": ["raw file layer (SimFS)", "HTTP client (fake urlopen)", "independent kern and MEI encoders (model/ref_kern.py, model/ref_mei.py)"]}
-PROBES = ("kern_spine_split_fallback_reader", "kern_same_part", "mei_dur_ppq", "kern_multi_spine", "kern_ties", "kern_tuplets", "kern_grace", "mei_attr_defs", "mei_child_defs", "mei_no_ppq", "mei_layers", "mei_tuplets", "mei_meter_change", "upper_case_extension", "url_route", "url_short_reads", "read_fault", "write_fault", "export_roundtrip_checked")
+PROBES = ("kern_spine_split_fallback_reader", "kern_same_part", "mei_dur_ppq", "kern_multi_spine", "kern_ties", "kern_tuplets", "kern_grace", "mei_attr_defs", "mei_child_defs", "mei_no_ppq", "mei_layers", "mei_tuplets", "mei_meter_change", "upper_case_extension", "url_route", "url_short_reads", "read_fault", "write_fault", "export_roundtrip_checked", "rich_export_strict_kern", "rich_export_strict_mei", "rich_export_strict_tuplets")
 
 
 # ----------------------------------------------------------------------------
@@ -54,7 +54,13 @@ def generate(seed, tier, cfg):
         # direction 2: half of the runs use parts both writers handle today (one voice on one staff, plain and
         # dotted values, rests), the other half the full subset (known findings KF-C19-*-export-rich)
         rich = k.random() < 0.5
-    asc = gen.gen_score(st.workload, profile=("kernmei" if fmt == "kern" else ("mei2" if cfg == "mei-in" else "mei")) if rich else "simple")
+    asc = gen.gen_score(st.workload, profile=("kernmei" if fmt == "kern" else ("mei2" if cfg == "mei-in" else "mei")) if rich else "simple", size=gen.pick_size(tier, st.knobs))
+    mid = False
+    if cfg.endswith("-rt") and rich and k.random() < 0.5:
+        # middle level: the full subset minus what the writers are known not to handle (ties, grace notes,
+        # unbracketed tuplets), so that chords, voices, staves, dots and bracketed tuplets are asserted strictly
+        mid = True
+        strip_unsupported(asc, fmt)
     if cfg.endswith("-rt"):
         asc["parts"] = asc["parts"][:1]
     ext = {"kern": k.choice((".krn", ".kern", ".krn", ".KRN")), "mei": k.choice((".mei", ".mei", ".MEI"))}[fmt]
@@ -68,6 +74,7 @@ def generate(seed, tier, cfg):
         err = {"F1": 28, "F2": f.choice((28, 5)), "F3": 28, "F4": 0, "F5": f.choice((2, 13)), "F6": 5, "F9": f.choice((0, 404, -1))}[kind]
         faults.append({"kind": kind, "path": "*", "at": f.choice((0, 0, 1, 2)) if kind in ("F2", "F4", "F6") else 0, "errno": err})
     knobs = _knobs(k, rich, ext, route)
+    knobs["mid"] = mid
     if cfg == "kern-in" and knobs["style"]["same_part"] and len(asc["parts"]) > 1:
         # several spines of ONE part (e.g. the staves of a piano part): keep a part that has two staves
         two = [p for p in asc["parts"] if len(set(n["staff"] for n in p["notes"])) > 1]
@@ -359,8 +366,84 @@ def run_rt(res, fs, asc, kn, fmt, path, faults, shape):
         if kn.get("rich", True):
             for v in res.violations[n_before:]:
                 if v["oracle"].startswith("X"):
-                    v["site"] = "rich:" + fmt
+                    v["site"] = "rich:%s:%s" % (fmt, export_reason(asc, fmt, v))
                     v["oracle"] = "X-export-roundtrip"
+
+
+def strip_unsupported(asc, fmt):
+    for p in asc["parts"]:
+        for n in p["notes"]:
+            for key in ("tie_next", "tie_prev", "grace_next", "grace_prev"):
+                n.pop(key, None)
+        p["notes"] = [n for n in p["notes"] if n["kind"] != "grace"]
+        ids = set(n["id"] for n in p["notes"])
+        p["slurs"] = [s for s in p.get("slurs", []) if s["start"] in ids and s["end"] in ids]
+        p["tuplets"] = [t for t in p.get("tuplets", []) if t["start"] in ids and t["end"] in ids]
+        # every tuplet group gets its bracket
+        groups = {}
+        for n in p["notes"]:
+            if n.get("g") is not None:
+                groups.setdefault(tuple(n["g"]), []).append(n)
+        starts = set(t["start"] for t in p["tuplets"])
+        for key, g in sorted(groups.items()):
+            g = sorted(g, key=lambda n: n["t"])
+            firsts = [n for n in g if n["t"] == g[0]["t"]]
+            lasts = [n for n in g if n["t"] == g[-1]["t"]]
+            if not any(n["id"] in starts for n in firsts):
+                p["tuplets"].append({"start": firsts[0]["id"], "end": lasts[0]["id"], "actual": g[0]["sym"]["actual_notes"], "normal": g[0]["sym"]["normal_notes"], "type": g[0]["sym"]["type"]})
+
+
+def export_features(asc):
+    f = set()
+    for p in asc["parts"]:
+        ns = p["notes"]
+        if any(n["kind"] == "grace" for n in ns):
+            f.add("grace")
+        if any(n.get("tie_next") for n in ns):
+            f.add("tie")
+        groups = {}
+        for n in ns:
+            if n.get("g") is not None:
+                groups.setdefault(tuple(n["g"]), []).append(n)
+        starts = set(t["start"] for t in p.get("tuplets", []))
+        for key, g in groups.items():
+            f.add("tuplet")
+            t0 = min(n["t"] for n in g)
+            if not any(n["id"] in starts for n in g if n["t"] == t0):
+                f.add("unbracketed-tuplet")
+        by_onset = {}
+        for n in ns:
+            if n["kind"] == "note":
+                by_onset.setdefault((n["t"], n["voice"], n["staff"]), []).append(n)
+        if any(len(v) > 1 and (v[0].get("sym") or {}).get("dots") for v in by_onset.values()):
+            f.add("dotted-chord")
+        if any(len(set(n["e"] for n in v)) > 1 for v in by_onset.values()):
+            f.add("unequal-chord")
+        # a voice that does not tile the measures it sounds in (gaps are not notated by the writers)
+        for key in set((n["voice"], n["staff"]) for n in ns if n["kind"] != "grace"):
+            vn = sorted((n for n in ns if (n["voice"], n["staff"]) == key and n["kind"] != "grace"), key=lambda n: (n["t"], n["e"]))
+            spans = sorted(set((n["t"], n["e"]) for n in vn))
+            pos = p["measures"][0]["s"]
+            for a, b in spans:
+                if a > pos:
+                    f.add("gappy-voice")
+                pos = max(pos, b)
+            if pos < p["measures"][-1]["e"]:
+                f.add("gappy-voice")
+    return f
+
+
+def export_reason(asc, fmt, v):
+    """which of the writers' known limitations a failed export round trip of a rich part falls under (the first that
+    applies); anything else is 'other' and is NOT covered by a known finding"""
+    if v["oracle"] == "X0-export-raised":
+        return "raised:" + str(v.get("site"))
+    f = export_features(asc)
+    order = ("grace", "tuplet", "tie", "gappy-voice") if fmt == "kern" else ("tie", "grace", "unbracketed-tuplet", "gappy-voice", "tuplet")
+    for r in order:
+        if r in f:
+            return r
+    return "other"
 
 
 def _run_rt(res, fs, asc, kn, fmt, path, faults, shape, score):
@@ -440,6 +523,14 @@ def _run_rt(res, fs, asc, kn, fmt, path, faults, shape, score):
             have.append((F(n.start.t, q), F(n.duration_tied, q), n.midi_pitch, n.staff))
     have.sort()
     res.probe("export_roundtrip_checked")
+    if kn.get("rich", True):
+        f = export_features(asc)
+        known = ("grace", "tuplet", "tie", "gappy-voice") if fmt == "kern" else ("tie", "grace", "unbracketed-tuplet")
+        if not (f & set(known)):
+            # a rich part outside every known limitation of the writer: judged strictly
+            res.probe("rich_export_strict_" + fmt)
+            if "tuplet" in f:
+                res.probe("rich_export_strict_tuplets")
     if have != want:
         miss = [x for x in want if x not in have][:3]
         extra = [x for x in have if x not in want][:3]
